@@ -31,6 +31,10 @@ func (c Cfg) validate(t reflect.Type, opt string, busy map[reflect.Type]bool) st
 	if t == TimeT && opt == "" || t == BytesT && opt == "" {
 		return ""
 	}
+	if opt != "" && t.Kind() == reflect.Struct && (t == TimeT || c.special(t, "") != SpNone) {
+		// the type is encoded by its registered codec, and there is none for this option
+		return fmt.Sprintf("option %q has no codec for %s", opt, t)
+	}
 	k := t.Kind()
 	switch {
 	case k == reflect.Bool, isUintKind(k) && k != reflect.Uintptr, k == reflect.Float32, k == reflect.Float64, k == reflect.String:
